@@ -436,4 +436,25 @@ theorem getSlice_index (ref est : List Nat) (h : ref.length ≤ est.length) (l :
       intro e
       exact hm ⟨x, hx, e⟩
 
+/-! ### `_gauc`: the accumulators of the query loop -/
+
+/-- `num_frames`, `score` after the queries with the given `(inversions, normalizer)` terms -/
+def accTerms (terms : List (Nat × Nat)) (nf : Nat) (sc : Rat) : Nat × Rat :=
+  (nf + (terms.filter fun t => t.2 ≠ 0).length,
+   sc + ((terms.filter fun t => t.2 ≠ 0).map fun t => 1 - (t.1 : Rat) / (t.2 : Rat)).sum)
+
+theorem accTerms_cons_pos (t : Nat × Nat) (terms : List (Nat × Nat)) (nf : Nat) (sc : Rat) (h : t.2 ≠ 0) :
+    accTerms (t :: terms) nf sc = accTerms terms (nf + 1) (sc + (1 - (t.1 : Rat) / (t.2 : Rat))) := by
+  simp only [accTerms, List.filter_cons, h, ne_eq, not_false_eq_true, decide_true, if_true, List.length_cons,
+    List.map_cons, List.sum_cons]
+  refine Prod.ext ?_ ?_
+  · simp only; omega
+  · simp only; ring
+
+theorem accTerms_cons_zero (t : Nat × Nat) (terms : List (Nat × Nat)) (nf : Nat) (sc : Rat) (h : t.2 = 0) :
+    accTerms (t :: terms) nf sc = accTerms terms nf sc := by
+  simp [accTerms, List.filter_cons, h]
+
+theorem divF_ne {a b : Rat} (h : b ≠ 0) : divF a b = .ok (a / b) := by unfold divF; rw [if_neg h]
+
 end Mir.PyH
